@@ -501,7 +501,7 @@ pub fn run_world<C: Check>(c: &C, prop: &str, tier: Tier, seed: u64, out_dir: &s
                     }
                     if let Err(v) = r {
                         let owners = c.property_of(&v.check);
-                        if v.check.starts_with("harness.") || owners.is_empty() || owners.contains(&prop) {
+                        if v.check.starts_with("harness.") || v.check.starts_with("api.") || owners.is_empty() || owners.contains(&prop) {
                             nviol.fetch_add(1, Ordering::Relaxed);
                             let mut m = viols.lock().unwrap();
                             let e = m.get(&v.signature);
